@@ -201,6 +201,13 @@ static bool loop_once(int t)
     return true;
 }
 
+/* one loop step in the middle of a script: never sleeps */
+static void loop_step(int t)
+{
+    if (loop_ready(g_mgr[t]))
+        loop_once(t);
+}
+
 static void app(void *arg)
 {
     (void)arg;
@@ -209,7 +216,7 @@ static void app(void *arg)
         case 'a': ubase_assert(upipe_attach_upump_mgr(g_xfer)); break;
         case 'u': upipe_set_uri(g_xfer, "x"); break;
         case 'o': upipe_set_output(g_xfer, &fx.sinks[0].upipe); break;
-        case 'l': loop_once(0); break;
+        case 'l': loop_step(0); break;
         case 'r': upipe_release(g_xfer); break;
         case 'm': upipe_mgr_release(g_xfer_mgr); break;
         }
